@@ -29,6 +29,10 @@ func runC03(c *Ctx) {
 	registryAgreement(c)
 	cdxAutoRef(c)
 	driverStateRule(c, "driver-keeps-no-state", []string{cdxSer, spdxSer, "beta.(*SPDX3).Serialize"}, newOrigins(c.P))
+	// "no reference to an element that was not emitted": relationship endpoints and element
+	// identifiers are the node identifiers, unchanged; identity attributes have a path through both formats
+	verbatimSPDX(c)
+	identityAttributePaths(c)
 }
 
 // placedAttached: C03-D2.
@@ -192,6 +196,7 @@ func runC05(c *Ctx) {
 	counterRule(c)
 	verbatimIDs(c)
 	rawBytes(c)
+	snifferStreamUses(c)
 	singleDispatch(c)
 	idAlphabet(c)
 	seedTransformsKeepSeeds(c)
@@ -441,6 +446,42 @@ func verbatimIDs(c *Ctx) {
 			n++
 			c.check(!strings.Contains(s, "BOMRef") && (strings.Contains(s, "ElementRefID") || strings.Contains(s, ".Id")), R, d.name+"#RootElements-append", c.P.Pos(as.Pos()),
 				"root ← "+s, "a root element is appended from "+s)
+			// SPDX: the root is the end of the relationship *opposite* to the one tested to be the
+			// document — the document itself is not a node
+			if strings.Contains(s, "ElementRefID") {
+				defs := singleDefs(d.pkg, d.fd.Body)
+				docEnd := ""
+				for _, en := range enclosing(d.fd.Body, as) {
+					ifs, isIf := en.(*ast.IfStmt)
+					if !isIf {
+						continue
+					}
+					for _, cj := range conjuncts(ifs.Cond) {
+						be, isBE := ast.Unparen(cj).(*ast.BinaryExpr)
+						if !isBE || be.Op != token.EQL {
+							continue
+						}
+						if v, isC := constOf(d.pkg, be.Y); !isC || !v.isStr() || v.str() != "DOCUMENT" {
+							continue
+						}
+						sel, isSel := ast.Unparen(be.X).(*ast.SelectorExpr)
+						if !isSel || sel.Sel.Name != "ElementRefID" {
+							continue
+						}
+						docEnd = normText(exprText(c.P.Fset, chase(d.pkg, defs, sel.X)))
+					}
+				}
+				other := ""
+				switch {
+				case strings.HasSuffix(docEnd, ".RefA"):
+					other = strings.TrimSuffix(docEnd, ".RefA") + ".RefB"
+				case strings.HasSuffix(docEnd, ".RefB"):
+					other = strings.TrimSuffix(docEnd, ".RefB") + ".RefA"
+				}
+				c.check(other != "" && strings.Contains(s, other+".ElementRefID"), R, d.name+"#RootElements-append#described-end", c.P.Pos(as.Pos()),
+					"the root is the end opposite to the one tested to be the document",
+					fmt.Sprintf("the root appended (%s) is not established to be the end of the relationship opposite to the one compared with \"DOCUMENT\" (%s): the document itself, which is not a node, can end up as a root element", s, docEnd))
+			}
 			return true
 		})
 		// anchors of RelateNodeListAtID / RelateNodeAtID
